@@ -39,3 +39,7 @@ Lemma gen_aws_host_eq : SigV4Gen.aws_host = SigV4.aws_host.
 Proof. reflexivity. Qed.
 Lemma gen_stream_digest_fact : SigV4Gen.stream_digest_reads_to_eof_then_rewinds = true.
 Proof. reflexivity. Qed.
+(* httpx.AsyncClient(timeout=None, event_hooks={response: raise for status}) - no follow_redirects; the hook raises on every
+   non-success answer; requests are only sent by _make_request/_make_streaming_request, which send what _prepare_request built *)
+Lemma gen_client_sends_only_prepared_requests : SigV4Gen.client_sends_only_prepared_requests = true.
+Proof. reflexivity. Qed.
